@@ -94,6 +94,53 @@ theorem C02_value_is_plain_enumeration_max (m : Model) (P : Params) (t : Nat)
       = (agentDecision m P (groups m) t next states i).value :=
   specAgent_best_eq_value m P t next states i hi hnd hst hfs chRep
 
+/-- **the reported choices at the specification level**: when the value is not `-inf`, the reported choices are - as a
+set of (name, value) pairs - one of the grid combinations of *all* declared choices, pass every filter and every
+constraint (`specQ … = some (v, true)`), and their objective `v` is the reported value, which is the maximum -/
+theorem C02_reported_choices_are_an_admissible_maximiser (m : Model) (P : Params) (t : Nat)
+    (next : Option (Tensor Ext × List (List (Name × Rat)))) (states : List (List (Name × Rat)))
+    (i : Nat) (hi : i < states.length)
+    (hnd : ((m.states ++ m.choices).map (·.1)).Nodup)
+    (hst : ((states.getD i []).map (·.1) ++ m.choices.map (·.1)).Nodup)
+    (hfs : (groups m).sC.isEmpty = true →
+      allTrue m P (toEnv (states.getD i []) ++ periodEnv t) (filterNames m) = some true)
+    (hfin : (agentDecision m P (groups m) t next states i).value ≠ .ninf) :
+    ∃ ch ∈ allChoices m, ch.Perm (agentDecision m P (groups m) t next states i).choices ∧
+      ∃ v : Rat, specQ m P (groups m) t next (states.getD i []) ch = some (v, true) ∧
+        (agentDecision m P (groups m) t next states i).value = .fin v ∧
+        (specAgent m P (groups m) t next (states.getD i []) ch).best = .fin v := by
+  obtain ⟨_, _, h3⟩ := agentDecision_spec m P (groups m) t next states i hi
+  obtain ⟨hc, hf, he, hy, hfeas, hval⟩ := h3 hfin
+  set out := simChoice states.length (assignments (groups m).sC) (assignments (groups m).dC) (assignments (groups m).cC)
+      (fun k c => agentFilt m P (groups m) t (states.getD k []) c)
+      (fun k c e y => valueOf (agentObj m P (groups m) t next (states.getD k []) c e y))
+      (fun k c e y => feasibleOf (agentObj m P (groups m) t next (states.getD k []) c e y)) i with hout
+  have hmem : out.1 ++ out.2.1 ++ out.2.2.1 ∈ assignments ((groups m).sC ++ (groups m).dC ++ (groups m).cC) :=
+    (mem_assignments_append _ _ _).mpr ⟨out.1 ++ out.2.1, (mem_assignments_append _ _ _).mpr ⟨out.1, hc, out.2.1, he, rfl⟩,
+      out.2.2.1, hy, rfl⟩
+  obtain ⟨ch, hch, hperm⟩ := assignments_perm _ _ (choices_perm m hnd).symm _ hmem
+  obtain ⟨F, hF1, hF2⟩ := spec_choice_agreement m P t next (states.getD i []) out.1 out.2.1 out.2.2.1 ch hst hc he hy hch hperm hfs
+  have hFt : F = some true := by
+    rw [hF1] at hf
+    cases F with
+    | none => simp at hf
+    | some b => cases b <;> simp_all
+  cases hO : agentObj m P (groups m) t next (states.getD i []) out.1 out.2.1 out.2.2.1 with
+  | none => rw [hO] at hfeas; simp [feasibleOf] at hfeas
+  | some qf =>
+    obtain ⟨q, fb⟩ := qf
+    rw [hO] at hfeas hval
+    have hfb : fb = true := by simpa [feasibleOf] using hfeas
+    subst hfb
+    refine ⟨ch, hch, ?_, q, ?_, ?_, ?_⟩
+    · refine hperm.trans ?_
+      show (out.1 ++ out.2.1 ++ out.2.2.1).Perm (out.2.1 ++ out.1 ++ out.2.2.1)
+      exact List.Perm.append_right _ List.perm_append_comm
+    · rw [hF2, hFt, hO]; rfl
+    · simpa [valueOf] using hval
+    · rw [specAgent_best_eq_value m P t next states i hi hnd hst hfs ch]
+      simpa [valueOf] using hval
+
 -- the hypotheses are satisfiable and the two sides are the pinned number: F1 witness, agent in state s = 2, period 0
 example : ((Ex.f1Model.states ++ Ex.f1Model.choices).map (·.1)).Nodup := by decide
 #guard (groups Ex.f1Model).sC.isEmpty
